@@ -763,6 +763,15 @@ def esc_enum(model, rep):
             for pre, post in (('', ''), ('a', 'a'), ('', '+x#'), ('a', '+open(1)#'), ('\\', ''), ('\\', '+x#'), ('a\\', '+x#'), ('\\\\', '+x#'), ('\n', '+x#')):
                 cases.append(pre + q * k + post)
                 cases.append(pre + (q * k + 'a') * 2 + q * k + post)
+        # characters that send the quoting code down its other paths: a lone surrogate (cannot be encoded: the ASCII-only retry), non-ASCII text,
+        # NUL and other control characters - each in front of / behind a quote run with code and a comment tail after it
+        for special in ('\ud800', '\udfff', '\xe9', '\U0001f600', '\0', '\x7f', '\r', '\t', '\x1b'):
+            for k in (1, 2, 3):
+                for qq in (q, other):
+                    cases.append(special + qq * k + '+x#')
+                    cases.append(qq * k + special + '+x#')
+                    cases.append(special + '\\' + qq * k + '+x#')
+                    cases.append('{x}' + special + qq * k + '+globals()#')
         for s_ in dict.fromkeys(cases):
             if s_ == '':
                 continue
@@ -800,6 +809,15 @@ def esc_enum(model, rep):
     field_values += ["\\'+__import__('os').sep#", '\\"+__import__("os").sep.encode()#', "'''+x#", '\\', '\\\\', "{'+x+'}", "\\N{BULLET}'+x#"]
     if quick:
         field_values = field_values[::3] + field_values[-7:]
+    # literal text of the f-string itself (not a constant inside a field), and a plain string statement, with the same tails behind characters
+    # that cannot be encoded / are not ASCII / are control characters
+    text_values = []
+    for special in ('\ud800', '\xe9', '\0', '\r', ''):
+        for qq in ("'", '"'):
+            for k in (1, 3):
+                text_values += [special + qq * k + '+globals().update(M=1)#', special + '\\' + qq * k + '+x#', qq * k + special + '+x#' + ('"' if qq == "'" else "'")]
+    if quick:
+        text_values = text_values[::2]
 
     def printing_eval(label):
         def hook(I, e, args, kw, env):
@@ -837,6 +855,21 @@ def esc_enum(model, rep):
                 n_cells += 1
                 if r[0] == 'undecided':
                     raise AnalysisError('UNDECIDED: %s: %s' % (label, r[1]))
+    for v_ in dict.fromkeys(text_values):
+        fv = lambda inner: ast.FormattedValue(value=inner, conversion=-1, format_spec=None)
+        shapes = {
+            'the literal text of an f-string after a field': ast.JoinedStr(values=[fv(ast.Name(id='x', ctx=ast.Load())), ast.Constant(value=v_)]),
+            'the literal text of an f-string between two fields': ast.JoinedStr(values=[fv(ast.Name(id='x', ctx=ast.Load())), ast.Constant(value=v_), fv(ast.Constant(value=v_))]),
+            'a plain string': ast.Constant(value=v_),
+            'a string in a call in a field': ast.JoinedStr(values=[fv(ast.Call(func=ast.Name(id='g', ctx=ast.Load()), args=[ast.Constant(value=v_)], keywords=[]))]),
+        }
+        for sl, value in shapes.items():
+            tree = ast.fix_missing_locations(ast.Module(body=[ast.Assign(targets=[ast.Name(id='t', ctx=ast.Store())], value=value)], type_ignores=[]))
+            label = 'printing t = <%s> with the text %r' % (sl, v_)
+            r = print_module(model, tree, extra_hooks={'eval': printing_eval(label)})
+            n_cells += 1
+            if r[0] == 'undecided':
+                raise AnalysisError('UNDECIDED: %s: %s' % (label, r[1]))
     where = 'src/python_minifier/ministring.py, f_string.py'
     seen = set()
     for (label, text) in bad:
